@@ -388,7 +388,27 @@ def proto_glue(funcs, text):
             if m:
                 bad("errors", p, "sharded %s: %s" % (op, m))
 
+    # ---- bookkeeping helpers are pure: no file-system call at all (C20: constant resource use outside maintenance) ----
+    FS = re.compile(r"(read_dir|ReadDir|metadata|File::open|remove_file|rename|hard_link|create_dir|set_file|set_permissions|DirEntry)")
+    for pat, label in ((r"^sharded::<impl .*>::sort_by_load$", "sort_by_load"), (r"^sharded::<impl .*>::shard_ids$", "shard_ids"),
+                       (r"^sharded::<impl .*>::other_shard_id$", "other_shard_id"), (r"^sharded::<impl .*>::update_estimate$", "update_estimate")):
+        try:
+            name, run, paths = explore(funcs, pat)
+        except mir.MirError:
+            continue   # arithmetic the executor has no model for: these are decided by c12_mapping
+        except Exception:
+            continue
+        fnames.append("sharded::Cache::" + label)
+        decls += run.ex.decls
+        npaths[name] = len(paths)
+        for p in paths:
+            fs = [e["callee"] for (e, _o) in p["events"] if FS.search(e["callee"])]
+            if fs:
+                bad("pure", p, "sharded::Cache::%s touches the file system (%s)" % (label, fs[0][:50]))
+    for p_name, rp in (("set", None), ("put", None)):
+        pass
     texts = {
+        "pure": ("C20+C12", "the shard-selection and load-bookkeeping helpers never touch the file system"),
         "update": ("C01+C02+C03+C04", "insert_or_update is exactly: re-stamp the source, make it read-only, rename it over the key, remove the source name (absent is fine)"),
         "insert": ("C01+C02+C03+C04", "insert_or_touch is exactly: re-stamp the source, make it read-only, link it under the key (on AlreadyExists touch the entry instead), remove the source name"),
         "fresh": ("C09", "move_to_back_of_list stamps the file once: mtime = now, atime derived from now"),
@@ -456,6 +476,56 @@ def native_choice(scratch):
         for (p, s, holder) in ((0, 1, 1), (0, 1, 0), (1, 0, 0), (1, 0, 1)):
             outs.append(sc.o_two_copies(sharded_scen(code, holder=holder, p=p, s=s), nat, ""))
     return _first_reproduced(outs)
+
+
+def native_sharded_sweep(scratch):
+    """The real sharded cache against the key-value reference (C11/C12): one copy per key, set overwrites, put
+    does not, the source file is consumed, lookups find the key in either candidate shard."""
+    nat, sc = _native(scratch)
+    devs = {"debug": [], "release": []}
+    for profile in ("debug", "release"):
+        for (p, s_) in ((0, 1), (1, 0), (1, 2), (2, 0)):
+            for holder in (None, p, s_):
+                for code in (20, 21, 22, 23):
+                    scen = sharded_scen(code, holder=holder, p=p, s=s_)
+                    r = sc.run_scenario(scen, nat, profile)
+                    if r is None:
+                        continue
+                    cfg = "candidates=(%d,%d) holder=%s op=%s" % (p, s_, holder, {20: "get", 21: "touch", 22: "set", 23: "put"}[code])
+                    copies = {k: v for k, v in r["after"].items() if k.endswith("/ka") and k.startswith("s/")}
+                    out = r["out"]
+                    msg = None
+                    if out["result"] != "ok" or out["panic"]:
+                        msg = "result %s %s" % (out["result"], out["panic"] or "")
+                    elif code == 20:
+                        got = (out["handle"] or {}).get("content")
+                        if (holder is None) != (got is None) or (holder is not None and got != "value-50"):
+                            msg = "get returned %r" % (got,)
+                    elif code == 21:
+                        if out["value"] != ("true" if holder is not None else "false"):
+                            msg = "touch returned %r" % (out["value"],)
+                    else:
+                        want = "value-9" if (code == 22 or holder is None) else "value-50"
+                        if len(copies) != 1:
+                            msg = "%d copies of the key: %r" % (len(copies), sorted(copies))
+                        elif list(copies.values())[0].get("content") != want:
+                            msg = "the key holds %r, expected %r" % (list(copies.values())[0].get("content"), want)
+                        elif holder is not None and list(copies)[0] != "s/.kismet_000%d/ka" % holder:
+                            msg = "the key moved from shard %d to %s" % (holder, list(copies)[0])
+                        elif "x/u0" in r["after"]:
+                            msg = "the source file was not consumed"
+                    if msg and len(devs[profile]) < 5:
+                        devs[profile].append("%s: %s" % (cfg, msg))
+    both = devs["debug"] and devs["release"]
+    return dict(reproduced=bool(both), detail=("debug: " + devs["debug"][0] + "; release: " + devs["release"][0]) if both else "the sharded cache agrees with the key-value reference natively",
+                signature=dict(op="sharded-sweep", what="deviation from the key-value reference of the sharded cache"), deviations=devs)
+
+
+def native_choice2(scratch):
+    r = native_choice(scratch)
+    if r.get("reproduced"):
+        return r
+    return native_sharded_sweep(scratch)
 
 
 def native_estimate(scratch):
@@ -534,5 +604,5 @@ def native_probe(scratch):
     return _first_reproduced(outs)
 
 
-NATIVE = {"choice": native_choice, "estimate": native_estimate, "bookkeeping": native_estimate, "update": native_protocol, "insert": native_protocol,
+NATIVE = {"pure": native_estimate, "choice": native_choice2, "probe-order": native_sharded_sweep, "estimate": native_estimate, "bookkeeping": native_estimate, "update": native_protocol, "insert": native_protocol,
           "readonly": native_protocol, "probe": native_probe, "fresh": native_fresh, "touch": native_touch, "retry": native_retry}
